@@ -21,6 +21,7 @@ import Mp.AggFunc
 #print axioms Mp.add_func
 #print axioms Mp.subtract_func
 #print axioms Mp.multiply_func
+#print axioms Mp.multiply_out_of_range
 #print axioms Mp.divide_func
 #print axioms Mp.modulo_func
 #print axioms Mp.divide_by_zero
